@@ -91,23 +91,30 @@ Impl == ndJsonDeserialize(IOEnv.TRACE_FILE)     \* line L+1: results for all wor
 InitWord == c = <<>>
 NextWord == Len(c) < MaxWord /\ \E b \in 0..5 : c' = Append(c, b)
 OtherCtx == CHOOSE n \in 0..254 : n # CtxA /\ n # CtxB
+\* the theorems, and (second half) the implementation's results against the operators: one record is printed per
+\* disagreeing word, the run never halts on them
 InvWord ==
     LET l == WordOf(c)
         D == DepthVec(l)
-    IN
-    /\ ContextIffBalancedD(l, D, CtxA) /\ ContextIffBalancedD(l, D, CtxB)
-    /\ GetContextPos(l, OtherCtx).kind = (IF BalancedIn(D, 1, Len(l)) THEN "none" ELSE "invalid")
-    /\ AnyIffBalancedD(l, D)
-    /\ BalancedIn(D, 1, Len(l)) <=> Balanced(l)
-    /\ (Len(c) <= 5 => BalancedInOK(l))
-\* implementation results against the operators; prints one record per disagreeing word, never halts
-ImplWord ==
-    LET l == WordOf(c)
+        ga == GetContextPos(l, CtxA)
+        gb == GetContextPos(l, CtxB)
+        an == AnyTake(l)
+        bal == BalancedIn(D, 1, Len(l))
         r == Impl[Len(c) + 1]
         k == WordIndex(c, 1) + 1
-        e == <<PosCode(GetContextPos(l, CtxA)), PosCode(GetContextPos(l, CtxB)), AnyCode(AnyTake(l))>>
+        e == <<PosCode(ga), PosCode(gb), AnyCode(an)>>
         g == <<r.a[k], r.b[k], r.any[k]>>
-    IN  e = g \/ PrintT(<<"@@", [w |-> AsSeq(c), exp |-> e, got |-> g]>>)
+    IN
+    /\ ga = GetContextDeclD(l, D, CtxA) /\ gb = GetContextDeclD(l, D, CtxB)
+    /\ ga.kind = "group" => BalancedIn(D, ga.from, ga.to)
+    /\ gb.kind = "group" => BalancedIn(D, gb.from, gb.to)
+    /\ bal => (ga.kind # "invalid" /\ gb.kind # "invalid")
+    /\ an = AnyTakeDeclD(l, D) /\ (an.ok => BalancedIn(D, 1, an.taken))
+    /\ (Len(c) <= 6 => /\ bal <=> Balanced(l)
+                        /\ GetContextPos(l, OtherCtx).kind = (IF bal THEN "none" ELSE "invalid")
+                        /\ ContextIffBalanced(l, CtxA) /\ AnyIffBalanced(l))
+    /\ (Len(c) <= 5 => BalancedInOK(l))
+    /\ (e = g \/ PrintT(<<"@@", [w |-> AsSeq(c), exp |-> e, got |-> g]>>))
 
 \* ---- Rec ---------------------------------------------------------------------------------------------
 \* records produced by the implementation, one per line of TRACE_FILE:
